@@ -9,8 +9,9 @@ expect without an expander:
 * `plain`:  the text contains no directive, macro name, comment or continuation -> output = header + text
 """
 
-NAMES = ['A', 'B', 'MAX', 'F', 'G', 'QUOTE', 'GLUE', 'DBG', 'ADDON', 'FNC', 'EMPTY']
-PARAMS = [('a', 'b'), ('X', 'Y'), ('p1', 'p2'), ('a',), ('x', 'y', 'z'), ()]
+NAMES = ['A', 'B', 'MAX', 'F', 'G', 'QUOTE', 'GLUE', 'DBG', 'ADDON', 'FNC', 'EMPTY', 'x', 'a']
+# some parameter names are also names of macros that may be defined (a parameter shadows a macro of its name)
+PARAMS = [('a', 'b'), ('X', 'Y'), ('p1', 'p2'), ('a',), ('x', 'y', 'z'), (), ('A', 'B'), ('MAX', 'x'), ('F',), ('x', 'EMPTY')]
 IDENTS = ['x', 'foo', '_v', 'player', 'v1', 'count', 'hint', 'q_r']
 
 
@@ -96,7 +97,9 @@ class PpGen:
                  '(%s) call {%s}' % (p(0), p(1)), '', '1', 'x y', '"text"', '(2 + 3)', '%s;%s' % (p(1), p(0)), '[%s] # 0' % p(0), '\\path\\%s' % p(0),
                  # identifiers that contain a parameter name as an underscore-delimited piece: whole-identifier matching only
                  'player_%s = %s' % (p(0), p(0)), 'my_%s_val = #%s' % (p(0), p(0)), '_%s + %s_' % (p(0), p(0)), '%s_%s' % (p(0), p(1)), 'x_%s_y_%s_z' % (p(0), p(1)),
-                 '%s1 + 1%s + %s' % (p(0), p(0), p(0))]
+                 '%s1 + 1%s + %s' % (p(0), p(0), p(0)),
+                 # a word directly in front of a string that holds comment markers
+                 'parseText %s"<a href=http://x.y/z>" + %s' % (p(0), p(0)), 'hint"/* not a comment */" + %s' % p(0), '%s"a // b" + "c /* d"' % p(0), '[%s"//", "*/"%s]' % (p(0), p(1))]
         if objs:
             forms += ['%s + %s' % (r.choice(objs), p(0)), '#%s' % r.choice(objs), '%s##%s' % (p(0), r.choice(objs)),
                       'foo_%s + %s_bar + _%s' % (r.choice(objs), r.choice(objs), r.choice(objs))]
@@ -182,7 +185,8 @@ class PpGen:
                                      # comments whose text begins or ends with the characters that delimit comments
                                      'k = 1; /*/ hidden A %d */ l = 2;' % u, 'm = 1; /*// hidden %d */ n = 2;' % u, 'o = /***/ 1; p = /** A %d **/ 2;' % u,
                                      'q = 1; /*/*/ r = %d;' % u, 's = 1; /* * / A %d */ t = 2;' % u, '//* line comment A %d' % u, 'u = 1; //// A %d' % u,
-                                     'v = 1; /* A %d *//* B */ w = 2;' % u, 'x = 1 /*A*/+/*B %d*/ 2;' % u]))
+                                     'v = 1; /* A %d *//* B */ w = 2;' % u, 'x = 1 /*A*/+/*B %d*/ 2;' % u,
+                                     'y = /* c %d */"s // not a comment"; z = 1;' % u, 'y = /* c *//* d %d */"/* s */" + "t";' % u, 'y = [/**/"a // b %d"/**/];' % u]))
             elif k == 'string':
                 s = self.string(defined)
                 out.append(r.choice(['s = %s;', 'hint %s;', '[%s, 1]', '%s']) % s)
@@ -282,7 +286,8 @@ class PpGen:
         if k == 'argcount':
             t = '#define F(a,b) a+b\nx = F(%s);\n' % r.choice(['1', '1,2,3', ''])
         elif k == 'recursive':
-            t = r.choice(['#define A A\nA\n', '#define A B\n#define B A\nx = A;\n', '#define F(a) F(a)\nF(1)\n', '#define F(a) G(a)\n#define G(a) F(a)\nF(1)\n'])
+            t = r.choice(['#define A A\nA\n', '#define A B\n#define B A\nx = A;\n', '#define F(a) F(a)\nF(1)\n', '#define F(a) G(a)\n#define G(a) F(a)\nF(1)\n',
+                          '#define F(x) x\n#define A F(A)\nA\n', '#define F(x) [x, x]\n#define A F(F(A))\nx = A;\n', '#define G(x) x\n#define F(x) G(x)\n#define A F(B)\n#define B G(A)\nA\n'])
         elif k == 'unknown':
             t = 'a = 1;\n#%s x\nb = 2;\n' % r.choice(['foo', 'elif', 'if', 'error', 'defin'])
         elif k == 'else':
